@@ -213,7 +213,11 @@ def body_hom(case):
     nb = d if case['cyclic'] else d - 1
     G = reference_generator(sizes, [single] * d, [two] * nb)
     a_sizes, a_single, a_two = list(sizes), [list(r) for r in single], [list(r) for r in two]
-    op = slim.slim_mme_hom(a_sizes, a_single, a_two, cyclic=case['cyclic'], threshold=th)
+    if case.get('rate_form', 'plain') == 'plain' and len(sizes) % 2 == 0:
+        op = slim.slim_mme_hom(a_sizes, a_single, a_two, case['cyclic'], th)       # (the optional arguments by position, in the documented order)
+        lab.add('optional_arguments_by_position')
+    else:
+        op = slim.slim_mme_hom(a_sizes, a_single, a_two, cyclic=case['cyclic'], threshold=th)
     check_generator(op, sizes, G, lab)
     op2 = slim.slim_mme_hom(a_sizes, a_single, a_two, cyclic=case['cyclic'], threshold=th)
     close(dense.matrix(op2.cores), dense.matrix(op.cores), 1e-13, float(np.max(np.abs(G))) or 1.0, 'repeatable',
@@ -238,7 +242,10 @@ def ulam_case(draw):
         grid[draw(st.integers(0, dim - 1))] = draw(st.sampled_from([17, 20, 25]))
     sims = draw(st.integers(1, 5))
     mode = draw(st.sampled_from(['full', 'full', 'sparse']))
-    return {'dim': dim, 'grid': grid, 'sims': sims, 'mode': mode, 'seed': draw(gen.SEED), 'k': draw(st.integers(1, 30)),
+    # an over-sampled transition (merged or coarse-grained tables): one box-to-box transition occurs several hundred times more
+    # often than the declared number of simulations per box
+    return {'heavy': draw(st.sampled_from([0, 0, 0, 0, 300, 70000])) if mode == 'sparse' else 0,
+            'dim': dim, 'grid': grid, 'sims': sims, 'mode': mode, 'seed': draw(gen.SEED), 'k': draw(st.integers(1, 30)),
             'form': draw(st.sampled_from(['int64', 'int64', 'int32', 'fortran', 'strided', 'uint8', 'uint8', 'int8']))}
 
 
@@ -257,6 +264,8 @@ def body_ulam(case):
     else:
         for _ in range(case['k']):
             cols.append(list(boxes[rng.integers(len(boxes))]) + list(boxes[rng.integers(len(boxes))]))
+        if case.get('heavy'):
+            cols += [list(cols[0])] * int(case['heavy'])
     T = np.array(cols, dtype=np.int64).T            # (2*dim) x K, 1-based
     want = np.zeros(grid + grid)
     src = tuple(T[i] - 1 for i in range(dim))
